@@ -324,6 +324,51 @@ def find_call_arg(path, fn_selector, callee, k):
     return Item("expr", "%s@%s#%d" % (callee, it.name, k), path, atoks, None, _line_of(src, atoks[0].start), _line_of(src, atoks[-1].end - 1), text, None)
 
 
+def find_region(path, fn_selector, start_pat, end_pat):
+    """the statements of the function selected by fn_selector from the statement that starts with the token sequence
+       start_pat up to and including the statement that starts with end_pat (through its terminating `;` at the bracket depth
+       of its first token). Returned as an Item of kind 'region' (tokens of those statements, byte-identical)."""
+    it = find_item(path, fn_selector)
+    src, _ = _load(path)
+    toks = it.toks
+    code = [i for i, t in enumerate(toks) if t.kind not in ("ws", "lcomment", "bcomment")]
+
+    def find(pat_text, from_ci):
+        pat = [t.text for t in lex(pat_text) if t.kind not in ("ws", "lcomment", "bcomment")]
+        for ci in range(from_ci, len(code) - len(pat) + 1):
+            if all(toks[code[ci + q]].text == pat[q] for q in range(len(pat))):
+                return ci
+        return None
+    a = find(start_pat, 0)
+    if a is None:
+        raise LostAnchor("region start `%s` not found in %r of %s" % (start_pat, fn_selector, path))
+    b = find(end_pat, a)
+    if b is None:
+        raise LostAnchor("region end `%s` not found in %r of %s" % (end_pat, fn_selector, path))
+    # end of the statement that starts at code[b]
+    q = b
+    end_i = None
+    while q < len(code):
+        tq = toks[code[q]]
+        if tq.kind == "punct" and tq.text in "([{":
+            cl = match_close(toks, code[q])
+            while q < len(code) and code[q] <= cl:
+                q += 1
+            # a block statement (`while .. { }`, `if .. { } else { }`) may end without `;`
+            continue
+        if tq.kind == "punct" and tq.text == ";":
+            end_i = code[q]
+            break
+        if tq.kind == "punct" and tq.text in ")]}":
+            raise LostAnchor("region end statement `%s` is not terminated by `;` in %r" % (end_pat, fn_selector))
+        q += 1
+    if end_i is None:
+        raise LostAnchor("region end statement `%s` has no terminating `;`" % end_pat)
+    rt = toks[code[a]:end_i + 1]
+    text = src[rt[0].start:rt[-1].end]
+    return Item("region", "%s@%s" % (start_pat[:30], it.name), path, rt, None, _line_of(src, rt[0].start), _line_of(src, rt[-1].end - 1), text, None)
+
+
 def list_items(path):
     src, toks = _load(path)
     out = []
